@@ -38,7 +38,9 @@ def tree_pda(depth, eps="ε"):
 
 # state names the normal forms generate themselves (fresh_state(Q, hint) -> hint1, hint2, ...)
 CLASH_NAMES = [["M1", "M2", "M3", "M4"], ["q_accept1", "q_initial1", "q_drain1", "M1"], ["M2", "q_accept2", "M1", "q_drain2"],
-               ["M", "M10", "M11", "M01"]]
+               ["M", "M10", "M11", "M01"],
+               # pda_to_cfg names its variables p'q: names with an apostrophe make two pairs look alike
+               ["x", "x'", "'y", "y"]]
 
 
 def build(src):
@@ -102,6 +104,19 @@ def _build(src):
             trans.append((rng.choice(Q), "a", rng.choice([eps, eps, "X"]), rng.choice(Q), rng.choice([eps, eps, "X"])))
         F = [order[-1]] if rng.random() < 0.6 else [q for q in Q if rng.random() < 0.3]
         return U.make_pda(Q, "a", "X", sorted(set(trans)), order[0], F, eps)
+    if src["kind"] == "pda_apos":
+        # state names with an apostrophe: pda_to_cfg calls its variables p'q, so (x', y) and (x, 'y) look alike;
+        # pushes leave x / x', pops enter y / 'y
+        rng = random.Random(src["seed"])
+        Q = ["x", "x'", "'y", "y"]
+        trans = []
+        for _ in range(rng.randint(1, 2)):
+            trans.append((rng.choice(["x", "x'"]), rng.choice(["a", eps]), eps, rng.choice(Q), "X"))
+        for _ in range(rng.randint(1, 2)):
+            trans.append((rng.choice(Q), rng.choice(["a", eps]), "X", rng.choice(["y", "'y"]), eps))
+        for _ in range(rng.randint(0, 2)):
+            trans.append((rng.choice(Q), rng.choice(["a", eps]), rng.choice(["X", eps]), rng.choice(Q), rng.choice(["X", eps])))
+        return U.make_pda(Q, "a", "X", sorted(set(trans)), "x", [rng.choice(["y", "'y"])], eps)
     if src["kind"] == "pda_trans":
         return U.make_pda(src["Q"], src["S"], src["G"], [tuple(t) for t in src["T"]], src["q0"], src["F"], eps)
     raise ValueError(src)
